@@ -156,6 +156,12 @@ def container(rng, im, b):
         cont += b[st:st + ln]
         cont += rbytes(rng, rng.choice([0, 0, 3, 16]))
     table = [(pieces[i][0], pieces[i][1], place[i]) for i in range(len(pieces))]
+    # sometimes the last piece is given as open-ended ("everything from here on is displaced"): a size near the
+    # largest stream offset, so that start + size does not fit a signed 64-bit offset
+    if len(table) >= 2 and rng.random() < 0.3:
+        k = max(range(len(table)), key=lambda i: table[i][0])
+        if table[k][0] > 0:
+            table[k] = (table[k][0], rng.choice([2**63 - 1, 2**63 - 1 - table[k][0] + 1, 2**63 - 8]), table[k][2])
     # decoys: empty ranges and ranges that map nothing that is read (beyond the image)
     if rng.random() < 0.5:
         table.append((rng.randint(0, n), 0, rng.randint(0, 5000)))
